@@ -31,6 +31,9 @@ type connCase struct {
 	Requests []*reqmodel.Request `json:"requests"`
 	Pipeline bool                `json:"pipeline,omitempty"` // all requests in one write
 	Segments []int               `json:"segments,omitempty"` // client write segmentation
+	// PauseMs > 0: every request body is sent in two parts with this pause in between ("direct-slow"
+	// mode runs with a 250 ms read-header timeout: the pause is longer than that limit)
+	PauseMs int `json:"pause_ms,omitempty"`
 }
 
 // env is one running configuration.
@@ -121,6 +124,8 @@ func newEnv(ctx *core.Ctx, mode string, rules []string) (*env, error) {
 				}))
 			}
 			switch mode {
+			case "direct-slow":
+				cfg.ReadHeaderTimeout = 250 * time.Millisecond
 			case "upstream":
 				cfg.UpstreamProxy = rig.MustURL("http://upstream.test:3128")
 			case "upstream-auth":
@@ -247,7 +252,17 @@ func (e *env) runConn(ctx *core.Ctx, cc *connCase) {
 		}
 	} else {
 		for i, r := range cc.Requests {
-			if err := c.Send(wire[i], cc.Segments); err != nil {
+			var err error
+			if nb := len(r.Body()); cc.PauseMs > 0 && nb >= 2 {
+				cut := len(wire[i]) - nb/2
+				if err = c.Send(wire[i][:cut], cc.Segments); err == nil {
+					time.Sleep(time.Duration(cc.PauseMs) * time.Millisecond)
+					err = c.Send(wire[i][cut:], nil)
+				}
+			} else {
+				err = c.Send(wire[i], cc.Segments)
+			}
+			if err != nil {
 				respErr[i] = err
 				break
 			}
@@ -479,6 +494,11 @@ func specViolations(cfg *reqmodel.Cfg, x *reqmodel.Ctx, r *reqmodel.Request, obs
 		}
 		return false
 	}
+	// fields named by a configured rule: the documented meaning of the rules, applied in order to what
+	// the client sent (hop-by-hop stripping happens before the rules)
+	for k := range rn {
+		checkRuleTouched(cfg.Rules, k, in, out, staticHop[k] || nominated[k], add)
+	}
 	// end-to-end fields preserved
 	for k, vin := range in {
 		if staticHop[k] || nominated[k] || managed[k] || ruleTouched(k) {
@@ -645,4 +665,69 @@ func connectionOK(vs []string, upgradeRequested bool) bool {
 		}
 	}
 	return len(vs) > 0
+}
+
+// checkRuleTouched evaluates the documented meaning of the header rules for one field name that is
+// not otherwise managed by the proxy ('name:value' appends, 'name;' sets the empty value, '-name' and
+// '-prefix*' remove, '%name' keeps the values).
+func checkRuleTouched(rules []string, k string, in, out map[string][]string, stripped bool, add func(clause, class, detail string)) {
+	switch k {
+	case "via", "x-forwarded-for", "x-forwarded-proto", "x-forwarded-host", "x-forwarded-url", "host", "content-length",
+		"accept-encoding", "authorization", "connection", "transfer-encoding", "trailer", "upgrade":
+		return // value also depends on the proxy's own additions: covered by the model comparison only
+	}
+	vals := append([]string(nil), in[k]...)
+	if stripped {
+		vals = nil
+	}
+	renamed := false
+	for _, rs := range rules {
+		h, err := header.ParseHeader(rs)
+		if err != nil {
+			continue
+		}
+		name := strings.ToLower(h.Name)
+		switch h.Action {
+		case header.Add:
+			if name == k {
+				vals = append(vals, *h.Value)
+			}
+		case header.Empty:
+			if name == k {
+				vals = []string{""}
+			}
+		case header.Remove:
+			if name == k {
+				vals = nil
+			}
+		case header.RemoveByPrefix:
+			if strings.HasPrefix(k, name) {
+				vals = nil
+			}
+		case header.RenameCase:
+			if name == k {
+				renamed = true
+			}
+		}
+	}
+	if renamed {
+		return // rules after a re-spelling are the recorded class F9c (C16)
+	}
+	got := out[k]
+	if k == "user-agent" {
+		// net/http sends the first User-Agent value only and nothing for an empty one
+		if len(vals) > 0 {
+			vals = vals[:1]
+		}
+		if len(vals) == 1 && vals[0] == "" {
+			vals = nil
+		}
+		if len(vals) == 0 && len(got) > 0 {
+			add("no User-Agent is invented", "", fmt.Sprintf("user-agent: %q", got))
+			return
+		}
+	}
+	if strings.Join(got, "\x00") != strings.Join(vals, "\x00") || len(got) != len(vals) {
+		add("configured header rules are applied", "", fmt.Sprintf("%s: got %q, rules give %q", k, got, vals))
+	}
 }
